@@ -39,10 +39,31 @@ func verifC18Case(c vCase, out *vOut) {
 	{
 		switch c.kind {
 		case "remote":
-			r, err := NewPrioritizedRoundRobinRemote(vDecGroups(c.get("groups")))
+			gs := vDecGroups(c.get("groups"))
+			// alias=i:j : group j is the very same slice as group i (the caller reuses one slice); twice=1 : the remote under
+			// test is the SECOND one constructed from the caller's slices; the model sees the values the caller wrote
+			if a := c.get("alias"); a != "" {
+				f := strings.Split(a, ":")
+				i, j := int(f[0][0]-'0'), int(f[1][0]-'0')
+				if i < len(gs) && j < len(gs) {
+					gs[j] = gs[i]
+				}
+			}
+			if c.get("twice") == "1" {
+				_, _ = NewPrioritizedRoundRobinRemote(gs)
+			}
+			r, err := NewPrioritizedRoundRobinRemote(gs)
 			if err != nil {
 				out.printf("remote %s res=err", c.id)
 				return
+			}
+			if c.get("scribble") == "1" {
+				// the caller goes on using its slices after construction
+				for _, g := range gs {
+					for k := range g {
+						g[k] = "scribbled:1"
+					}
+				}
 			}
 			str := r.String()
 			rt := "err"
